@@ -217,7 +217,7 @@ class DeferredSnapshotActionCallback(ActionCallback):
         :return: True, to keep this callback until next match.
         """
         if event in ['exception', 'return']:
-            watch, new_vars, _ = self.__action_context.process_capture_variable(event, arg)
+            watch, new_vars, _ = self.__action_context.process_capture_variable(event, arg, later=True)
             self.__snapshot.add_watch_result(watch)
             self.__snapshot.merge_var_lookup(new_vars)
 
